@@ -45,6 +45,10 @@ def agg_steps(cols, roles):
     return pr, win
 
 
+def cols_after_hint(agg):
+    return set(agg["ops"]) | set(agg.get("group_by") or [])
+
+
 def suffixes(agg, cols_after, outputs, keys):
     """suffix step lists applicable after the aggregation step"""
     out = [("none", [])]
@@ -61,6 +65,9 @@ def suffixes(agg, cols_after, outputs, keys):
     elif len(outputs) >= 1:
         # no key: overwrite then keep a single constant column
         out.append(("overwrite_then_select", [{"op": "extend", "ops": {"k9": V(1)}}, {"op": "select_columns", "columns": ["k9"]}]))
+    if agg["op"] == "project" and "w" not in cols_after_hint(agg):
+        # every output (and key) dropped *after a key-less join*: the rows must still be one per group, times the other side
+        out.append(("cross_join_keep_right", [{"op": "natural_join", "b": menus.E_HIST, "on": [], "jointype": "CROSS"}, {"op": "select_columns", "columns": ["w"]}]))
     out.append(("rename", [{"op": "rename_columns", "map": {outputs[0] + "_r": outputs[0]}}]))
     out.append(("order", [{"op": "order_rows", "columns": [outputs[0]]}, {"op": "extend", "ops": {"k8": V(2)}}]))
     return out
@@ -133,6 +140,10 @@ def work(prefix_hists, tier, open_ids, part_i=0, part_n=1):
         part.count("pipelines", len(pipes))
         sqlcache = {}
         datas = [{"d": t} for t in fam] if tabs == ["d"] else [{"d": t, "e": e} for t in fam for e in efam]
+        if tabs == ["d"] and any(sname == "cross_join_keep_right" for _, sname, _, _ in pipes):
+            # the join suffix reads e: give every input a fixed two-row e
+            e2 = inputs.mk(["g", "w", "y"], inputs.E_TYPES, inputs.E_ROWS_Q[:2])
+            datas = [{"d": t, "e": e2} for t in fam]
         for data in datas:
             pres = {b: run_backend(b, pops, data, sqlcache) for b in BACKENDS}
             for step, sname, h, ops in pipes:
@@ -156,6 +167,8 @@ def work(prefix_hists, tier, open_ids, part_i=0, part_n=1):
                             want = len({tuple(compare._key(v) for v in r) for r in kp[2]})
                         else:
                             want = 1
+                        if sname == "cross_join_keep_right":
+                            want = want * len(data["e"]["rows"])
                         part.outcome(("project", bool(gb), sname, want, n == want))
                         if n != want:
                             part.violation(
